@@ -60,6 +60,9 @@ type GenOpts struct {
 	// ContentSeed != 0: forced-length byte strings get pseudo-random content expanded from this seed
 	// instead of drawn content (enumerations feed short tapes, which would give all-zero content).
 	ContentSeed uint64
+	// ForceVec: every vector field of the top-level object has exactly VecLen elements
+	ForceVec bool
+	VecLen   int
 	AllBits     bool    // top-level object: every used flag bit is set
 	ModeSubset  *uint32 // top-level object: bit k selects the k-th (ascending) used flag bit
 	used        int
@@ -168,6 +171,9 @@ func (s *Schema) Draw(r Rand, t TypeExpr, o *GenOpts) *Value {
 			max = 2
 		}
 		n := r.Intn("veclen", max+1)
+		if o.ForceVec && o.depth <= 1 {
+			n = o.VecLen
+		}
 		v := &Value{Kind: KVector}
 		for i := 0; i < n; i++ {
 			v.Elems = append(v.Elems, s.Draw(r, *t.Elem, o))
